@@ -508,6 +508,29 @@ def main():
         ck.violation({'kind': 'property-fails-on-implementation' if 'property_clauses_violated' in m else 'model-vs-implementation',
                       'case': m, 'gallina_case': cases[i][:4000],
                       'theorems': 'C16_* (Props/C16.v)', 'how_to_replay': 'bin/check C16 --replay <this file>'})
+    # membership of a coordinate does not depend on which cached values the shape happens to hold: wedges whose outer arc
+    # passes through a cardinal direction between two drawn vertices (the arc bulges out of the box of the drawn polygon),
+    # probed just inside the arc at that direction, before and after `bounds` / the rectangle / a bbox export were read
+    from geostructures.calc import inverse_haversine_degrees as _dest
+    sliver_n = 0
+    for (a0, a1, card) in ((40, 135, 90), (-33, 40, 0), (100, 275, 180), (100, 275, 270), (10, 80, 45)):
+        for lat0 in (0.0, 40.0, -60.0):
+            mkw = lambda: GeoRing(Coordinate(12.0, lat0), 500.0, 20000.0, a0, a1)      # noqa: E731
+            w = mkw()
+            probes = [_dest(Coordinate(12.0, lat0), card, 20000.0 * f) for f in (0.9996, 0.9999, 0.99)]
+            before = [w.contains_coordinate(q) for q in probes]
+            guarded_call(lambda: (w.bounds, w.circumscribing_rectangle(), w.to_geojson(include_bbox=True), w.centroid, w.area))
+            after = [w.contains_coordinate(q) for q in probes]
+            fresh = [mkw().contains_coordinate(q) for q in probes]
+            sliver_n += len(probes)
+            if not (before == after == fresh):
+                ck.violation({'kind': 'property-fails-on-implementation',
+                              'case': {'wedge': [a0, a1], 'centre': [12.0, lat0], 'probe_bearing': card,
+                                       'contains_before_reads': before, 'after_reads': after, 'fresh_object': fresh},
+                              'detail': 'contains_coordinate changes after bounds / circumscribing_rectangle / bbox export were read on the same wedge',
+                              'theorems': 'C16_read_pure / C16_read_repeat'})
+                break
+    ck.cov['cached_bounds_membership_probes'] = sliver_n
     ck.finish(rule='histories: per shape kind (11 kinds, 0-2 holes, dt None/instant/interval, 0-2 properties) seeded sequences of 1-8 '
                    'operations drawn from 10 reads, to_polygon, set_dt / buffer_dt / strip_dt / set_property in both inplace modes '
                    '(buffers include negative ones that invert the interval, buffer_dt without dt); after EVERY operation: model '
